@@ -397,6 +397,62 @@ def exec_ops(case, ops, op_timeout=60, emit=None):
                     rec.update(_output(built, case, op))
                     signal.alarm(0)
                     rec["status"] = "returned"
+                elif kind == "still_sat":
+                    # the compiled formula with one whole sequence pinned (unit clauses on its level variables):
+                    # satisfiable iff the formula accepts exactly that sequence.  The first sequences also go through
+                    # the public helper is_cnf_still_sat; the rest reuse one compilation (build_cnf) of the same block.
+                    from sweetpea._internal.server import is_cnf_still_sat, build_cnf
+                    from sweetpea._internal.core import CNF, cnf_is_satisfiable
+                    from sweetpea._internal.logic import And, cnf_to_json
+                    b = built.block
+                    F = case["factors"]
+                    byname = {f.name: f for f in b.act_design if isinstance(f.name, str)}
+                    base = None
+                    res = []
+                    for k, rows in enumerate(op["rows_list"]):
+                        lits = []
+                        ok = len(rows) == b.trials_per_sample()
+                        for t, row in enumerate(rows):
+                            for fi, li in enumerate(row):
+                                name = F[fi]["name"]
+                                if name not in byname:
+                                    continue
+                                f = byname[name]
+                                applies = f.applies_to_trial(t // b.sustain_count(f) + 1)
+                                if len(f.levels) != len(F[fi]["levels"]) or (li > 0) != applies or li < 0:
+                                    ok = False       # not expressible as pins (weights desugared / '' mismatch)
+                                    continue
+                                if li > 0:
+                                    lits.append(b._encode_variable(f, f.levels[li - 1], t + 1))
+                        if not ok:
+                            res.append(None)
+                            continue
+                        # factors the block leaves out of the formula ("implied") are filled in by add_implied_levels when
+                        # a model is decoded: the pipeline can return the candidate only if that fill-in reproduces it
+                        implied = [(fi, f) for fi, fd in enumerate(F) for f in b.design
+                                   if f.name == fd["name"] and f not in b.act_design]
+                        if implied:
+                            cols = {f.name: [("" if row[fi] <= 0 else F[fi]["levels"][row[fi] - 1]) for row in rows]
+                                    for fi, fd in enumerate(F) for f in b.act_design if f.name == fd["name"]}
+                            full = b.add_implied_levels(cols)
+                            same = all(list(full.get(f.name, [])) ==
+                                       [("" if row[fi] <= 0 else F[fi]["levels"][row[fi] - 1]) for row in rows]
+                                       for fi, f in implied)
+                            if not same:
+                                res.append(False)
+                                continue
+                        with ir.quiet():
+                            if base is None:
+                                base = build_cnf(b)
+                            r1 = bool(cnf_is_satisfiable(base + CNF(cnf_to_json([And(lits)]))))
+                            if k < op.get("api", 2):
+                                r2 = bool(is_cnf_still_sat(b, [And(lits)]))
+                                if r1 != r2:
+                                    r1 = "api-disagrees"
+                        res.append(r1)
+                    signal.alarm(0)
+                    rec["status"] = "returned"
+                    rec["results"] = res
                 elif kind == "varmap":
                     rec.update(_varmap(built, case, op.get("ncand", 6), op.get("seed", 0)))
                     signal.alarm(0)
